@@ -60,31 +60,32 @@ const (
 )
 
 type mwCfg struct {
-	minStates, maxStates       int
-	pRequire, pAdd, pRemove    int // 1-in-N per ordered pair (0 = never)
-	pAfter                     int
-	pAuto, pMulti              int
-	acyclicRequire             bool
-	handlers                   bool // bind recording handlers
-	pVeto                      int  // 1-in-N per negotiation handler call
-	pHandlerMut                int  // 1-in-N per handler call: issue a mutation
-	pHandlerYield              int  // 1-in-N per handler call: park inside
-	pFault                     int  // 1-in-N per handler call: inject a fault
-	faults                     []int
-	minTasks, maxTasks         int
-	minOps, maxOps             int
-	menu                       []opKind
-	pNoArgs                    int // 1-in-N ops carry no args
-	hooks                      []string
-	pHook                      int // each hook enabled with 1-in-N... (2 = half)
-	readers                    int
-	queueLimit                 int
-	timeWeight                 int
-	handlerTimeout, deadline   time.Duration
-	backoff                    time.Duration
-	bindings                   int
-	extraTracers               int
-	shuffleOrder               bool
+	minStates, maxStates     int
+	pRequire, pAdd, pRemove  int // 1-in-N per ordered pair (0 = never)
+	pAfter                   int
+	pAuto, pMulti            int
+	acyclicRequire           bool
+	handlers                 bool // bind recording handlers
+	pVeto                    int  // 1-in-N per negotiation handler call
+	pHandlerMut              int  // 1-in-N per handler call: issue a mutation
+	pHandlerYield            int  // 1-in-N per handler call: park inside
+	pFault                   int  // 1-in-N per handler call: inject a fault
+	faults                   []int
+	minTasks, maxTasks       int
+	minOps, maxOps           int
+	menu                     []opKind
+	pNoArgs                  int // 1-in-N ops carry no args
+	hooks                    []string
+	pHook                    int // each hook enabled with 1-in-N... (2 = half)
+	readers                  int
+	queueLimit               int
+	timeWeight               int
+	handlerTimeout, deadline time.Duration
+	backoff                  time.Duration
+	bindings                 int
+	extraTracers             int
+	shuffleOrder             bool
+	bindKinds                bool // draw binding kinds (maps / prefix / struct)
 }
 
 type mwPlan struct {
@@ -92,11 +93,15 @@ type mwPlan struct {
 	schema   am.Schema
 	order    am.S
 	tasks    [][]mwOp
-	hb       []int         // behaviour of handler call k (beyond len: accept)
-	hmut     map[int]mwOp  // mutation issued by handler call k
-	hyield   map[int]bool  // handler call k parks inside
+	hb       []int        // behaviour of handler call k (beyond len: accept)
+	hmut     map[int]mwOp // mutation issued by handler call k
+	hyield   map[int]bool // handler call k parks inside
 	hooks    map[string]bool
 	bindings int
+	// bindKinds[b]: 0 = handler maps, 1 = handler maps restricted by a state
+	// prefix, 2 = reflected struct
+	bindKinds  []int
+	bindPrefix []string
 }
 
 func (p *mwPlan) schemaString() string {
@@ -281,6 +286,17 @@ func genPlan(tp *core.Tape, c *mwCfg) *mwPlan {
 		p.bindings = 1
 		if c.bindings > 1 {
 			p.bindings = tp.Range(1, c.bindings)
+		}
+		for b := 0; b < p.bindings; b++ {
+			k, pre := 0, ""
+			if c.bindKinds {
+				k = tp.Draw(3)
+				if k == 1 {
+					pre = p.names[tp.Draw(len(p.names))]
+				}
+			}
+			p.bindKinds = append(p.bindKinds, k)
+			p.bindPrefix = append(p.bindPrefix, pre)
 		}
 	}
 	for _, h := range c.hooks {
@@ -509,13 +525,37 @@ func newMW(s *core.Sim, c *mwCfg, p *mwPlan, extra ...am.Tracer) *mw {
 }
 
 func (w *mw) bind(b int) {
+	kind, prefix := 0, ""
+	if b < len(w.p.bindKinds) {
+		kind, prefix = w.p.bindKinds[b], w.p.bindPrefix[b]
+	}
+	if kind == 2 {
+		if _, err := w.m.HandlersBind(&hStruct{w: w, b: b}); err != nil {
+			panic(err)
+		}
+		return
+	}
 	neg := map[string]am.HandlerNegotiation{}
 	fin := map[string]am.HandlerFinal{}
 	mkn := func(name string) {
-		neg[name] = func(e *am.Event) bool { return w.handle(b, name, e, false) }
+		key := name
+		if kind == 1 {
+			if !strings.HasPrefix(name, prefix) {
+				return
+			}
+			key = strings.TrimPrefix(name, prefix)
+		}
+		neg[key] = func(e *am.Event) bool { return w.handle(b, name, e, false) }
 	}
 	mkf := func(name string) {
-		fin[name] = func(e *am.Event) { w.handle(b, name, e, true) }
+		key := name
+		if kind == 1 {
+			if !strings.HasPrefix(name, prefix) {
+				return
+			}
+			key = strings.TrimPrefix(name, prefix)
+		}
+		fin[key] = func(e *am.Event) { w.handle(b, name, e, true) }
 	}
 	for _, s1 := range w.all {
 		mkn(s1 + am.SuffixEnter)
@@ -528,7 +568,11 @@ func (w *mw) bind(b int) {
 	}
 	mkn(am.StateAny + am.SuffixEnter)
 	mkf(am.StateAny + am.SuffixState)
-	if _, err := w.m.HandlersBindMaps(neg, fin); err != nil {
+	var opts []am.BindOpts
+	if kind == 1 {
+		opts = append(opts, am.BindOpts{StatePrefix: prefix})
+	}
+	if _, err := w.m.HandlersBindMaps(neg, fin, opts...); err != nil {
 		panic(err)
 	}
 }
